@@ -456,21 +456,25 @@ class NetCDFRead(IORead):
         >>> r.file_close()
 
         """
-        g = self.read_vars
+        g = getattr(self, "read_vars", None)
+        if not g:
+            return
 
-        for nc in g["datasets"]:
+        # Each collection is emptied as it is closed, so that this
+        # method may be called again (e.g. after a failed read)
+        for nc in g.pop("datasets", ()):
             nc.close()
 
         # Close temporary flattened files
-        for flat_file in g["flat_files"]:
+        for flat_file in g.pop("flat_files", ()):
             flat_file.close()
 
         # Close the original grouped file (v1.8.8.1)
         if "nc_grouped" in g:
-            g["nc_grouped"].close()
+            g.pop("nc_grouped").close()
 
         # Close s3fs.File objects
-        for f in g["s3fs_File_objects"]:
+        for f in g.pop("s3fs_File_objects", ()):
             f.close()
 
     def file_open(self, filename, flatten=True, verbose=None):
@@ -1179,6 +1183,12 @@ class NetCDFRead(IORead):
         # Open the netCDF file to be read
         # ------------------------------------------------------------
         nc = self.file_open(filename, flatten=True, verbose=None)
+
+        # The netCDF4 dataset objects that have been opened (i.e. the
+        # for parent file and any external files). Set this
+        # immediately, so that `file_close` can always close them.
+        g["datasets"] = [nc]
+
         logger.info(f"Reading netCDF file: {filename}\n")  # pragma: no cover
         if debug:
             logger.debug(
@@ -1493,10 +1503,6 @@ class NetCDFRead(IORead):
 
         # The netCDF4 variable object for each variable
         g["variables"] = variables
-
-        # The netCDF4 dataset objects that have been opened (i.e. the
-        # for parent file and any external files)
-        g["datasets"] = [nc]
 
         # The names of the variable in the parent files
         # (i.e. excluding any external variables)
